@@ -325,6 +325,9 @@ func LeafValue(r *rand.Rand, s *model.Schema, name string) interface{} {
 	case "Float64":
 		return r.NormFloat64() * math.Pow(10, float64(r.Intn(40)-20))
 	case "String":
+		if r.Intn(8) == 0 {
+			return ctrlPool[r.Intn(len(ctrlPool))]
+		}
 		return RandString(r)
 	case "ID":
 		if r.Intn(3) == 0 {
@@ -340,6 +343,10 @@ func LeafValue(r *rand.Rand, s *model.Schema, name string) interface{} {
 }
 
 var strPool = []string{"", "a", "hello", "with space", "quote\"d", "back\\slash", "new\nline", "tab\t", "üñí", "😀", "{}", "null", "0", "true"}
+
+// ctrlPool are resolver-side strings (data only, never written into documents) made of characters a JSON writer must
+// escape or pass through with care, WITHOUT any of the everyday escapes (quote, backslash, \b \f \n \r \t) next to them.
+var ctrlPool = []string{"nul\x00z", "\x01", "esc\x1b[0m", "del\x7f", "bell\x07", "us\x1f", "\x02\x03", "ls\u2028ps\u2029", "real \ufffd replacement char", "nel\u0085", "\x0b vt \x0e so"}
 
 // RandString draws a string with occasional awkward content.
 func RandString(r *rand.Rand) string {
